@@ -41,6 +41,14 @@ func c13Pool(kind string) []lexeme {
 		p = append(p, lx(tokenizers.Symbol, "<>", "<=", ">=", "<", ">", "=", "+", "*", "(", ")", ",", "/", "!", ";", "-", ".", "{", "%", "&", "^")...)
 		return p
 	}
+	if kind == "generic+latesymbols" {
+		// further symbols registered in two phases, the tokenizer used in between (c13New)
+		p = append(p, lx(tokenizers.Word, "abc", "y")...)
+		p = append(p, lx(tokenizers.Integer, "12")...)
+		p = append(p, lx(tokenizers.Whitespace, " ")...)
+		p = append(p, lx(tokenizers.Symbol, "<-->", "<-", "<", "-", ">", "<=", "=>>", "=>", "=", "+")...)
+		return p
+	}
 	if kind == "generic+symrange" {
 		// arrows and mathematical operators configured back as symbols on top of the default word range
 		p = append(p, lx(tokenizers.Word, "abc", "я", "привет", "aя", "日本")...)
@@ -78,6 +86,7 @@ func c13Pool(kind string) []lexeme {
 var c13Multi = map[string][]string{
 	"generic":    {"<>", "<=", ">="},
 	"expression": {"<=", ">=", "<>", "!=", ">>", "<<"},
+	"generic+latesymbols": {"<>", "<=", ">=", "<-->", "<-", "=>>", "=>"},
 }
 
 func isWordCharConservative(r rune) bool {
@@ -86,9 +95,12 @@ func isWordCharConservative(r rune) bool {
 
 // longest registered symbol that prefixes s (or its first character)
 func longestSymbol(kind string, s string) string {
-	kind = c13Base(kind)
+	multi, ok := c13Multi[kind]
+	if !ok {
+		multi = c13Multi[c13Base(kind)]
+	}
 	best := string([]rune(s)[:1])
-	for _, m := range c13Multi[kind] {
+	for _, m := range multi {
 		if strings.HasPrefix(s, m) && len(m) > len(best) {
 			best = m
 		}
@@ -100,6 +112,7 @@ func longestSymbol(kind string, s string) string {
 // written next to each other certainly stay two lexemes of the same classes.
 func canAbut(kind string, a, b lexeme) bool {
 	configured := kind != c13Base(kind)
+	fullKind := kind
 	kind = c13Base(kind)
 	if configured && a.typ == tokenizers.Symbol && []rune(a.text)[0] >= 0x100 {
 		// a non-Latin symbol ends after one character whatever follows
@@ -143,7 +156,10 @@ func canAbut(kind string, a, b lexeme) bool {
 		if a.text == "я" && isWordCharConservative(bf) && kind == "generic" {
 			return false
 		}
-		return longestSymbol(kind, a.text+b.text) == a.text
+		if fullKind == "generic+latesymbols" && b.typ == tokenizers.Symbol {
+			return true // runs of symbols are re-segmented by the reference (longest registered symbol first)
+		}
+		return longestSymbol(fullKind, a.text+b.text) == a.text
 	}
 	return false
 }
@@ -160,6 +176,16 @@ func c13New(kind string) tokenizers.ITokenizer {
 	case "generic+symrange":
 		g := t.(*generic.GenericTokenizer)
 		g.SetCharacterState(0x2190, 0x22ff, g.SymbolState())
+	case "generic+latesymbols":
+		// long symbols first, the tokenizer used on texts that fail deep inside them, then their prefixes
+		g := t.(*generic.GenericTokenizer)
+		g.SymbolState().Add("<-->", tokenizers.Symbol)
+		g.SymbolState().Add("=>>", tokenizers.Symbol)
+		for _, in := range []string{"<--y", "<-y", "<-->", "=>y", "=>>", "<--", "=>"} {
+			fw.Try(func() { g.TokenizeBuffer(in) })
+		}
+		g.SymbolState().Add("<-", tokenizers.Symbol)
+		g.SymbolState().Add("=>", tokenizers.Symbol)
 	case "expression+cyrillic":
 		e := t.(*calctok.ExpressionTokenizer)
 		e.SetCharacterState(0x0400, 0x04ff, e.WordState())
@@ -201,6 +227,28 @@ func c13Run(c *fw.Ctx, kind string, pool []lexeme, seq []int, mode int) {
 			text.WriteString(l.text)
 			want = append(want, l)
 		}
+	}
+	if kind == "generic+latesymbols" && mode == 1 {
+		// adjacent symbols: expected segmentation = greedy longest registered symbol over the whole run
+		seg := []lexeme{}
+		for i := 0; i < len(want); {
+			if want[i].typ != tokenizers.Symbol {
+				seg = append(seg, want[i])
+				i++
+				continue
+			}
+			run := ""
+			for i < len(want) && want[i].typ == tokenizers.Symbol {
+				run += want[i].text
+				i++
+			}
+			for run != "" {
+				sym := longestSymbol(kind, run)
+				seg = append(seg, lexeme{sym, tokenizers.Symbol})
+				run = run[len(sym):]
+			}
+		}
+		want = seg
 	}
 	in := text.String()
 	t := c13Tok[kind]
@@ -279,7 +327,7 @@ func init() {
 				maxLen = 4
 			}
 			sp := []fw.Space{}
-			for _, kind := range []string{"generic", "expression", "generic+symrange", "expression+cyrillic"} {
+			for _, kind := range []string{"generic", "expression", "generic+symrange", "expression+cyrillic", "generic+latesymbols"} {
 				kind := kind
 				pool := c13Pool(kind)
 				for mode := 0; mode < 2; mode++ {
